@@ -49,7 +49,7 @@ def run_symbolic(server, world, ids, syms, flags=0):
         if c is None:
             raise ValueError('event %r is disabled in a linear trace' % (ev,))
         concrete.append(c)
-        if ev[0] in ('C', 'C2'):
+        if ev[0] in ('C', 'C2', 'C3'):
             serial += 1
             if ev[1] in tmpctx['cur']:
                 tmpctx['old'][ev[1]] = tmpctx['cur'][ev[1]]
@@ -65,13 +65,13 @@ def run_symbolic(server, world, ids, syms, flags=0):
         Mn, v, w = proto.step(world, M, ev, ctx, ctx['serial'] + 1, r.out)
         V += [(t, x, n) for t, x in v]
         # advance ctx the way the daemon does: verdicts and withdrawals retire an instance
-        if ev[0] in ('C', 'C2'):
+        if ev[0] in ('C', 'C2', 'C3'):
             ctx['serial'] += 1
             if ev[1] in ctx['cur']:
                 ctx['old'][ev[1]] = ctx['cur'][ev[1]]
             ctx['cur'][ev[1]] = ctx['serial']
         for j, inst in Mn:
-            if inst is None and j in ctx['cur'] and not (ev[0] in ('C', 'C2') and ev[1] == j):
+            if inst is None and j in ctx['cur'] and not (ev[0] in ('C', 'C2', 'C3') and ev[1] == j):
                 ctx['old'][j] = ctx['cur'].pop(j)
         M = Mn
     return V, outs, status, err, len(res)
